@@ -1,6 +1,8 @@
 (* Model/RelocCore.v -- Rock Ridge deep-directory RELOCATION (RR_MOVED, CL / PL / RE) as a state
-   machine over edit histories, the image view that write_fp lays down, and an independent
-   SUSP/RRIP reader.  Executable definitions only; proofs in Proofs/Reloc*.v.
+   machine over edit histories, and the plain logical specification of the same edits.  The
+   written image and the independent SUSP/RRIP reader are in Model/RelocView.v, the trace checker
+   in Model/Reloc.v.  Executable definitions only; proofs in Proofs/Reloc*.v.
+   Models /repo at 42db27e (after the fixes 6984eda, cd1f033, 3cc255b, 42db27e, 4a3ef6f found with it).
 
    Python sources modelled (in the code's order):
      pycdlib.py  add_directory (Rock Ridge part)  path lookup THROUGH child links, duplicate test,
@@ -14,10 +16,11 @@
                  _find_dr_record_by_name          lookup follows cl_to_moved_dr on EVERY component
                  _iso_name_and_parent_from_path   a parent that is not a directory is refused
                     before anything is built (fix 3cc255b)
-                 _reassign_vd_dirrecord_extents   breadth-first extents (closed form, see [ext]),
-                    '..' link counts (copy_file_links), CL / PL block numbers
-     dr.py       _rr_new (isdir branch: which PX link counts are bumped, and that they are bumped
-                    BEFORE add_child may refuse), new_dir (placeholder: isdir False, PX links 2),
+                 _reassign_vd_dirrecord_extents   (in RelocView.v) breadth-first extents, '..' link
+                    counts (copy_file_links), CL / PL block numbers
+     dr.py       _rr_new (isdir branch: which PX link counts are bumped; the refusals that used to
+                    come after it are now raised before: duplicate test in add_directory, parent
+                    test 3cc255b), new_dir (placeholder: isdir False, PX links 2),
                     remove_child (which counts are decremented; CL records count as directories)
      rockridge.py  RRCLRecord / RRPLRecord / RRRERecord: which records carry them; PX.new = 1.
 
@@ -30,10 +33,14 @@
 
    Restrictions (guards [name_ok]/[op_ok]; an operation outside them is [Oom]):
      Rock Ridge 1.09/1.10/1.12, interchange level 3 (level 1 behaves the same: the generated
-     RR_MOVED names are not length-checked), no Joliet/UDF/El Torito/XA, fresh image, names short
-     enough to need no continuation area, no path component named RR_MOVED, at most 1000 colliding
-     names inside RR_MOVED, one directory block count [sz] per physical directory given from
-     outside (its history is Model/AccountRR.v). *)
+     RR_MOVED names are not length-checked), no Joliet/UDF/El Torito/XA, fresh image (no reopen),
+     identifiers valid for the level and short enough to need no continuation area (they are
+     opaque byte strings here: _check_iso9660_directory/_filename are Model/Names.v), no path
+     component named RR_MOVED (so the user never works inside RR_MOVED and cd1f033 never fires),
+     at most 1000 colliding names inside RR_MOVED, set_relocated_name not used, children found by
+     linear search instead of bisection (same result on the sorted duplicate-free lists), one
+     directory block count [sz] per physical directory given from outside (its history is
+     Model/AccountRR.v), file data extents not modelled. *)
 From Coq Require Import ZArith List Bool.
 Import ListNotations.
 Local Open Scope Z_scope.
